@@ -34,6 +34,8 @@ pub enum Trace {
     Recorder(crate::recorder::RecorderTrace),
     Rules(crate::rules::RulesTrace),
     Bytes(crate::crash::BytesTrace),
+    /// the whole supply chain really carried out (in_toto_run per step, artifact transport, verification)
+    Pipeline(crate::pipeline::PipelineTrace),
     /// a history: the earlier traces are executed first, in the same process, and only the last one is
     /// judged (defects that need state carried over from an earlier call)
     Seq(Vec<Trace>),
@@ -82,7 +84,7 @@ pub fn runs_for(check: &str, tier: Tier) -> u64 {
         "C15" => if q { 24_000 } else { 1_000_000 },
         "C13" => if q { 12_000 } else { 200_000 },
         "C06" => if q { 160 } else { 6_000 },
-        "C08" => if q { 192 } else { 4_000 },
+        "C08" => if q { 192 + C08_PIPELINES_QUICK } else { 4_000 + C08_PIPELINES_THOROUGH },
         "C03" => if q { 100_000 } else { 5_000_000 },
         "C04" => if q { 80_000 } else { 3_000_000 },
         "C09" => if q { 8_000 } else { 400_000 },
@@ -93,6 +95,10 @@ pub fn runs_for(check: &str, tier: Tier) -> u64 {
         _ => 0,
     }
 }
+
+/// C08: run indices beyond the grid worlds are pipeline runs with an inspection over the delivered product
+pub const C08_PIPELINES_QUICK: u64 = 1_024;
+pub const C08_PIPELINES_THOROUGH: u64 = 40_000;
 
 pub fn level_of(check: &str) -> &'static str {
     match check {
@@ -175,6 +181,17 @@ fn exec_supply_inner(check: &str, t: &SupplyTrace, scratch: &Scratch, rec: &mut 
     let o = run_supply(t, scratch);
     let j = oracle::judge_supply(t, &o);
     rec.evaluations += 1;
+    // simulated time covered by this world: from the earliest to the latest instant on its timeline
+    // (every clock value the verifier is given, the root layout's expiry)
+    {
+        let mut instants: Vec<i64> = t.clock.iter().map(|c| c.0).collect();
+        if let Some((e, _)) = crate::refmodel::rfc3339_instant(&t.root.layout.expires) {
+            instants.push(e);
+        }
+        if let (Some(a), Some(b)) = (instants.iter().min(), instants.iter().max()) {
+            rec.sim_seconds += (b - a) as f64;
+        }
+    }
     let nontrivial = !o.truth.fired.is_empty() || !t.labels.is_empty();
     rec.shapes.push((shape_digest(&j.shape), nontrivial && o.no_layout.is_none()));
     rec.schedules.push(schedule_digest(t));
@@ -405,9 +422,7 @@ pub fn run_supply_check(check: &str, tier: Tier, seed: u64, index: u64, scratch:
             applied += 1;
         }
     }
-    let sim = t.clock[0].0 - plan.now;
-    rec.sim_seconds += sim.abs() as f64;
-    let _ = &baseline_trace;
+    let _ = (&baseline_trace, plan.now);
     exec_supply(check, &t, scratch, rec, seed, index);
 }
 
@@ -598,13 +613,19 @@ pub fn run_one(check: &str, tier: Tier, seed: u64, index: u64, scratch: &Scratch
         "C01" | "C02" | "C07" | "C15" => run_supply_check(check, tier, seed, index, scratch, &mut rec),
         "C13" => run_c13(tier, seed, index, scratch, &mut rec),
         "C06" => crate::grid::run_c06(tier, seed, index, scratch, &mut rec),
+        "C08" if index >= (if tier == Tier::Quick { 192 } else { 4_000 }) => crate::pipeline::run_check("C08", tier, seed, index, scratch, &mut rec),
         "C08" => crate::grid::run_c08(tier, seed, index, scratch, &mut rec),
         "C14" => crate::crash::run_c14(tier, seed, index, scratch, &mut rec),
+        // one run in sixteen carries the chain out for real (in_toto_run per step, artifact transport)
+        // (SCSIM_ONLY_PIPELINE: a debugging aid for sensitivity trials — every run of the check is a pipeline run)
+        "C03" | "C18" if std::env::var_os("SCSIM_ONLY_PIPELINE").is_some() => crate::pipeline::run_check(check, tier, seed, index, scratch, &mut rec),
+        "C03" if index % 16 == 5 => crate::pipeline::run_check("C03", tier, seed, index, scratch, &mut rec),
         "C03" => crate::rules::run_c03(tier, seed, index, scratch, &mut rec),
         "C04" => crate::ceremony::run_c04(tier, seed, index, &mut rec),
         "C09" => crate::ceremony::run_c09(tier, seed, index, &mut rec),
         "C05" => crate::ceremony::run_c05(tier, seed, index, &mut rec),
         "C17" => crate::channel::run_c17(tier, seed, index, scratch, &mut rec),
+        "C18" if index % 64 == 7 => crate::pipeline::run_check("C18", tier, seed, index, scratch, &mut rec),
         "C18" => crate::recorder::run_c18(tier, seed, index, scratch, &mut rec),
         _ => panic!("unknown check {check}"),
     }
@@ -624,6 +645,7 @@ pub fn replay_trace(prop: &str, trace: &Trace, scratch: &Scratch) -> Vec<Finding
         Trace::Recorder(t) => crate::recorder::replay(prop, t, scratch, &mut rec),
         Trace::Rules(t) => crate::rules::replay(prop, t, scratch, &mut rec),
         Trace::Bytes(t) => crate::crash::replay(prop, t, &mut rec),
+        Trace::Pipeline(t) => crate::pipeline::replay(prop, t, scratch, &mut rec),
         Trace::SeedSeq { .. } => vec![],
         Trace::Seq(ts) if ts.iter().all(|t| matches!(t, Trace::Ceremony(_))) => {
             let cs: Vec<&crate::ceremony::CeremonyTrace> = ts.iter().filter_map(|t| if let Trace::Ceremony(c) = t { Some(c) } else { None }).collect();
